@@ -3,7 +3,7 @@
    lemma of Proofs/Metrics*Proofs.v, with [Print Assumptions] beneath. *)
 From Coq Require Import QArith.
 From Coupe Require Import Lib.Prelude Lib.SFloat Lib.Csr Model.Metrics Proofs.MetricsCutProofs
-  Proofs.MetricsLambdaProofs Proofs.MetricsLoadProofs Proofs.MetricsGridProofs Proofs.MetricsGridGenericProofs Gen.MetricsGen.
+  Proofs.MetricsLambdaProofs Proofs.MetricsLoadProofs Proofs.MetricsGridProofs Proofs.MetricsGridGenericProofs Proofs.GridModelsAgree Gen.MetricsGen.
 Open Scope Z_scope.
 
 (* The operators and expression shapes that Model/Metrics.v transcribes, as the translator
@@ -212,6 +212,16 @@ Theorem C16_grid_lambda_def_generic : forall dims p ws k,
   grid_lambda_cut dims p ws = Ok (lambda_def k (grid_rows dims) p ws).
 Proof. exact grid_lambda_def_generic. Qed.
 Print Assumptions C16_grid_lambda_def_generic.
+
+(* C10's hand-written model of the same Rust functions (Model/GridRcb.v: Grid::len, index_of,
+   position_of with result type [res], D = 2, 3) is this model wherever it answers: the index
+   theorems above are about the arithmetic Grid::rcb's model uses *)
+Theorem C16_grid_models_agree : forall ds,
+  GridRcb.glen ds = grid_len ds
+  /\ (forall pos i, GridRcb.index_of ds pos = Ok i -> index_of ds pos = i)
+  /\ (forall i pos, GridRcb.position_of ds i = Ok pos -> position_of ds i = pos).
+Proof. exact grid_models_agree. Qed.
+Print Assumptions C16_grid_models_agree.
 
 (* u is yielded by neighbors(v) iff u is a cell whose position differs from v's by exactly
    one on exactly one axis ([adjacent_pos]) *)
